@@ -5,6 +5,7 @@ import (
 	"errors"
 	"fmt"
 	"reflect"
+	"runtime"
 	"strconv"
 	"sync"
 	"sync/atomic"
@@ -46,6 +47,9 @@ type scope struct {
 
 	// State
 	disposed int32 // atomic
+
+	// closer is the id of the goroutine that is running (or has run) Close
+	closer atomic.Uint64
 
 	// closed is closed once Close has finished disposing everything
 	closed chan struct{}
@@ -257,8 +261,76 @@ func (s *scope) CreateScope(ctx context.Context) (Scope, error) {
 // disposing the scope: the caller must not go on to its own instances before that
 func (s *scope) closeAndWait() error {
 	err := s.Close()
+
+	select {
+	case <-s.closed:
+		return err
+	default:
+	}
+
+	if s.closer.Load() == goroutineID() {
+		// The Close in progress is further up this very call stack: a Close method of one
+		// of the scope's instances is closing an ancestor. Waiting for it would wait for
+		// ourselves, so the instances it has not reached yet are disposed here, before
+		// the ancestor goes on to its own; the outer Close finds nothing left to do
+		if errs := s.disposeInstances(); len(errs) > 0 {
+			return &DisposalError{
+				Context: "scope",
+				Errors:  errs,
+			}
+		}
+		return nil
+	}
+
 	<-s.closed
 	return err
+}
+
+// disposeInstances closes the scope's disposable instances in reverse order of creation.
+// It takes them off the list one at a time, so that closeAndWait can finish the job when a
+// Close method closes an ancestor of its own scope.
+func (s *scope) disposeInstances() []error {
+	var errs []error
+
+	for {
+		s.disposablesMu.Lock()
+		n := len(s.disposables)
+		if n == 0 {
+			s.disposables = nil
+			s.disposablesMu.Unlock()
+			return errs
+		}
+		d := s.disposables[n-1]
+		s.disposables[n-1] = nil
+		s.disposables = s.disposables[:n-1]
+		s.disposablesMu.Unlock()
+
+		if err := d.Close(); err != nil {
+			errs = append(errs, fmt.Errorf("failed to dispose scoped instance: %w", err))
+		}
+	}
+}
+
+// goroutineID returns the id of the calling goroutine, taken from the first line of its
+// stack trace ("goroutine 123 [running]:").
+func goroutineID() uint64 {
+	var buf [64]byte
+	b := buf[:runtime.Stack(buf[:], false)]
+
+	const prefix = "goroutine "
+	if len(b) < len(prefix) {
+		return 0
+	}
+
+	var id uint64
+	for _, c := range b[len(prefix):] {
+		if c < '0' || c > '9' {
+			break
+		}
+		id = id*10 + uint64(c-'0')
+	}
+
+	return id
 }
 
 // Close disposes the scope and all its resources
@@ -269,6 +341,7 @@ func (s *scope) Close() error {
 		// Whoever closes this scope on behalf of an ancestor waits (closeAndWait)
 		return nil
 	}
+	s.closer.Store(goroutineID())
 	defer close(s.closed)
 	verifYield("scope.Close:flagged")
 
@@ -300,17 +373,8 @@ func (s *scope) Close() error {
 
 	verifYield("scope.Close:cancelled")
 	// Dispose all disposable scoped instances in reverse order
-	s.disposablesMu.Lock()
-	disposables := s.disposables
-	s.disposables = nil
-	s.disposablesMu.Unlock()
 	verifYield("scope.Close:drained")
-
-	for i := len(disposables) - 1; i >= 0; i-- {
-		if err := disposables[i].Close(); err != nil {
-			errs = append(errs, fmt.Errorf("failed to dispose scoped instance: %w", err))
-		}
-	}
+	errs = append(errs, s.disposeInstances()...)
 
 	verifYield("scope.Close:disposed-own")
 	// Remove from parent's children
